@@ -3,7 +3,7 @@
 cd "$(dirname "$0")/.." || exit 2
 for d in seeded/*/; do
   n=$(basename $d); id=${n%%-*}
-  out=$(VERIF_NPROC=16 MUT_LINES=1 tools/mutcheck.sh $d/patch.diff $id quick 2>&1)
+  out=$(VERIF_SHRINK_BUDGET=${VERIF_SHRINK_BUDGET:-3} VERIF_NPROC=16 MUT_LINES=1 tools/mutcheck.sh $d/patch.diff $id quick 2>&1)
   rc=$(echo "$out" | grep -o "exit=[a-z0-9-]*" | tail -1)
   sig=$(echo "$out" | grep "^FAIL" | head -1 | cut -c6-90)
   echo "$n $rc $sig"
